@@ -32,9 +32,9 @@ PLAN = {
     "C17": dict(mc_q=[("single", 2, 4), ("singleeres", 2, 4), ("singlenil", 2, 4), ("singlererun", 1, 4)],
                 mc_t=[("single", 3, 4), ("singleeres", 3, 4), ("singlenil", 3, 4), ("singlererun", 1, 4), ("flow2empty", 1, 4)],
                 gen_q=("single,plain", 200), gen_t=("single,plain,err", 4000)),
-    "C18": dict(mc_q=[("single", 2, 4), ("flow2empty", 1, 4), ("flowbatch", 2, 4), ("nestsmall", 1, 3)],
-                mc_t=[("single", 3, 4), ("flow2empty", 1, 6), ("nest", 1, 4)],
-                gen_q=("single,plain,nest", 150), gen_t=("single,plain,nest", 3000)),
+    "C18": dict(mc_q=[("single", 2, 4), ("flow2empty", 1, 4), ("flowbatch", 2, 4), ("nestsmall", 1, 3), ("singlecancel", 2, 4)],
+                mc_t=[("single", 3, 4), ("flow2empty", 1, 6), ("nest", 1, 4), ("singlecancel", 3, 4), ("flowcancel", 2, 4), ("flowbatch", 2, 5)],
+                gen_q=("single,plain,nest,cancel", 130), gen_t=("single,plain,nest,cancel,cancelenum", 2500)),
 }
 
 
